@@ -48,15 +48,15 @@ theorem simE_prim_inv {p : Prim} (h : simE P P' Γ S T (.prim p) e' = some s) :
   · cases h
 
 theorem simE_tag_inv {i : Nat} {t : Ty} (h : simE P P' Γ S T (.tag i t) e' = some s) :
-    ∃ t', e' = .tag i t' ∧ s = .any := by
+    ∃ t', e' = .tag i t' ∧ Sem.tagTyName t = Sem.tagTyName t' ∧ s = .any := by
   sim_inv h e'
   rename_i j t'
   split at h
   · rename_i hij
-    have : i = j := by simpa using hij
-    subst this
+    simp only [Bool.and_eq_true, beq_iff_eq] at hij
+    obtain ⟨rfl, hk⟩ := hij
     simp only [Option.some.injEq] at h
-    exact ⟨t', rfl, h.symm⟩
+    exact ⟨t', rfl, hk, h.symm⟩
   · cases h
 
 theorem simE_constr_inv {c : Ctor} {t : Ty} {args : List Expr} (h : simE P P' Γ S T (.constr c t args) e' = some s) :
